@@ -257,6 +257,12 @@ func (m *Markdown) renderHTMLBlock(w io.Writer, n *ast.HTMLBlock, src []byte) er
 			return err
 		}
 	}
+	// The line that ends the block (</script>, -->, ?>, ]]>) is kept apart from the others
+	if n.HasClosure() {
+		if _, err := w.Write(n.ClosureLine.Value(src)); err != nil {
+			return err
+		}
+	}
 	return nil
 }
 
